@@ -6,7 +6,7 @@ ID = "C15"
 COQ_FILES = ["Common/Corr.v", "Model/Resolve.v", "Model/ProtocLookup.v", "Proofs/Resolve.v", "Props/C15.v"]
 PROPS = "Props/C15.v"
 THEOREMS = ["C15_create_prefix_list_spec", "C15_resolve_absolute", "C15_lookup_total",
-            "C15_repaired_resolve_eq_protoc", "C15_resolve_eq_protoc_partial", "C15_resolve_eq_protoc_refuted",
+            "C15_repaired_resolve_eq_protoc", "C15_patched_resolve_eq_protoc", "C15_resolve_eq_protoc_partial", "C15_resolve_eq_protoc_refuted",
             "C15_double_dot_diverges"]
 AXIOMS_OK = []
 TRUSTED = ["hand-written Gallina mirror of linker/resolve.go (resolve, fileScope, messageScope, resolveElementRelative, "
@@ -532,9 +532,9 @@ def run(ctx):
     cases = []
     for files, probes in corpus():
         cases.append((files, probes, "corpus"))
-    for sid in range(ctx.budget(int(os.environ.get("C15N", "60")), 3000)):
+    for sid in range(ctx.budget(int(os.environ.get("C15N", "40")), 3000)):
         files = gen_schema(rng, sid)
-        cases.append((files, gen_probes(rng, files, files[0], ctx.budget(140, 400)), "random"))
+        cases.append((files, gen_probes(rng, files, files[0], ctx.budget(130, 400)), "random"))
     ins, infos = [], []
     for files, probes, origin in cases:
         root = files[0]
